@@ -638,6 +638,24 @@ impl State {
                         );
                     }
                 }
+                // an expert node counts its invalid children itself, and numbers its edges
+                if let Some(Kind::Expert(e)) = n.verif_kind() {
+                    let invalid = children.iter().filter(|c| !c.is_valid()).count() as i32;
+                    if e.num_invalid_children.get() != invalid {
+                        bad!(
+                            "expert node {id}: num_invalid_children = {} but {invalid} of its children are invalid",
+                            e.num_invalid_children.get()
+                        );
+                    }
+                    for (j, edge) in e.children.borrow().iter().enumerate() {
+                        if edge.index_cell().get() != Some(j as i32) {
+                            bad!(
+                                "expert node {id}: edge number {j} records index {:?}",
+                                edge.index_cell().get()
+                            );
+                        }
+                    }
+                }
                 if after_stabilise && !queued && n.value_as_any().is_none() {
                     bad!("node {id} ({}): necessary and valid but has no value after stabilise", kind_tag(n));
                 }
